@@ -1179,7 +1179,12 @@ class Client(BaseClient):
                     raise
         if ip in ("0.0.0.0", None):
             ip = self.server_host
-        reader, writer = await self._open_connection(ip, port)
+        # (the address comes from the peer: like the command connection, the
+        # data connection is not waited for longer than connection_timeout)
+        reader, writer = await asyncio.wait_for(
+            self._open_connection(ip, port),
+            self.connection_timeout,
+        )
         return reader, writer
 
     @async_enterable
